@@ -765,7 +765,22 @@ fn poison_op(rng: &mut Rng, op: &mut Op, kind: &str) {
     }
 }
 
-fn gen_addtype(rng: &mut Rng, sw: &Swarm, added: &[String], hints_used: &mut Vec<String>, counter: &mut usize) -> Op {
+fn gen_addtype(rng: &mut Rng, sw: &Swarm, added: &[String], defs_model: &Defs, hints_used: &mut Vec<String>, counter: &mut usize) -> Op {
+    let mut op = gen_addtype_plain(rng, sw, added, hints_used, counter);
+    if sw.defaults > 0 {
+        if let Op::AddType { schema, .. } = &mut op {
+            if schema.get("type") == Some(&json!("object")) {
+                // property defaults and (sometimes) a type-level default, valid or
+                // invalid per swarm setting; the property may be typed by a
+                // definition delivered by an earlier call
+                add_defaults(rng, sw, schema, defs_model, true);
+            }
+        }
+    }
+    op
+}
+
+fn gen_addtype_plain(rng: &mut Rng, sw: &Swarm, added: &[String], hints_used: &mut Vec<String>, counter: &mut usize) -> Op {
     *counter += 1;
     let n = *counter;
     let mut cx = Ctx {
@@ -1001,11 +1016,12 @@ pub fn generate(seed: u64, focus: Focus, faults: bool) -> RunDesc {
     let mut added: Vec<String> = Vec::new();
     let mut add_indices: Vec<usize> = Vec::new();
     let mut hints: Vec<String> = Vec::new();
+    let mut defs_model: Defs = Defs::new();
     let mut counter = 0usize;
     let mut roots = 0usize;
     if sw.addtype && rng.chance(1, 4) {
         // a client may add free-standing types before any definitions
-        ops.push(gen_addtype(rng, &sw, &added, &mut hints, &mut counter));
+        ops.push(gen_addtype(rng, &sw, &added, &defs_model, &mut hints, &mut counter));
         add_indices.push(ops.len() - 1);
     }
     while !pool.is_empty() {
@@ -1028,13 +1044,24 @@ pub fn generate(seed: u64, focus: Focus, faults: bool) -> RunDesc {
             } else {
                 None
             };
-            Op::AddRootSchema {
-                doc: root_doc(rng, &batch, titled),
-                poison: None,
+            let is_titled = titled.is_some();
+            let mut doc = root_doc(rng, &batch, titled);
+            if is_titled && sw.defaults > 0 {
+                let mut model = defs_model.clone();
+                for c in &batch {
+                    for (n, d) in &c.defs {
+                        model.insert(n.clone(), d.clone());
+                    }
+                }
+                add_defaults(rng, &sw, &mut doc, &model, true);
             }
+            Op::AddRootSchema { doc, poison: None }
         };
         for c in &batch {
             added.extend(c.defs.iter().map(|d| d.0.clone()));
+            for (n, d) in &c.defs {
+                defs_model.insert(n.clone(), d.clone());
+            }
         }
         ops.push(op);
         add_indices.push(ops.len() - 1);
@@ -1044,7 +1071,7 @@ pub fn generate(seed: u64, focus: Focus, faults: bool) -> RunDesc {
         if sw.addtype {
             let n = rng.below(3);
             for _ in 0..n {
-                ops.push(gen_addtype(rng, &sw, &added, &mut hints, &mut counter));
+                ops.push(gen_addtype(rng, &sw, &added, &defs_model, &mut hints, &mut counter));
                 add_indices.push(ops.len() - 1);
             }
         }
